@@ -7,6 +7,7 @@ use crate::signature::{converter::SignatureConverter, EntraitSignature, InputSig
 use crate::token_util::TokenPair;
 
 use proc_macro2::Span;
+use quote::ToTokens;
 use syn::spanned::Spanned;
 
 #[derive(Clone)]
@@ -110,6 +111,7 @@ pub(super) fn detect_trait_dependency_mode<'t, 'c>(
 
 pub struct GenericsAnalyzer {
     trait_generics: TraitGenerics,
+    param_conflict: Option<syn::Error>,
 }
 
 impl GenericsAnalyzer {
@@ -119,6 +121,7 @@ impl GenericsAnalyzer {
                 params: Default::default(),
                 where_predicates: Default::default(),
             },
+            param_conflict: None,
         }
     }
 
@@ -127,6 +130,50 @@ impl GenericsAnalyzer {
     }
 
     pub fn analyze_fn_deps(&mut self, input_sig: InputSig<'_>, opts: &Opts) -> syn::Result<FnDeps> {
+        let deps = self.analyze_fn_deps_inner(input_sig, opts)?;
+        match self.param_conflict.take() {
+            Some(error) => Err(error),
+            None => Ok(deps),
+        }
+    }
+
+    /// A type or const parameter of a function becomes a parameter of the trait.
+    /// Functions of one module share the trait: a parameter they declare identically is declared once.
+    fn push_trait_param(&mut self, param: &syn::GenericParam) {
+        fn ident(param: &syn::GenericParam) -> Option<&syn::Ident> {
+            match param {
+                syn::GenericParam::Type(type_param) => Some(&type_param.ident),
+                syn::GenericParam::Const(const_param) => Some(&const_param.ident),
+                syn::GenericParam::Lifetime(_) => None,
+            }
+        }
+
+        let existing = self
+            .trait_generics
+            .params
+            .iter()
+            .find(|existing| ident(existing).is_some() && ident(existing) == ident(param));
+
+        match existing {
+            None => self.trait_generics.params.push(param.clone()),
+            Some(existing) => {
+                if existing.to_token_stream().to_string() != param.to_token_stream().to_string() {
+                    self.param_conflict.get_or_insert_with(|| {
+                        syn::Error::new(
+                            param.span(),
+                            "Generic parameters become parameters of the generated trait, and another function has already declared a different parameter with this name",
+                        )
+                    });
+                }
+            }
+        }
+    }
+
+    fn analyze_fn_deps_inner(
+        &mut self,
+        input_sig: InputSig<'_>,
+        opts: &Opts,
+    ) -> syn::Result<FnDeps> {
         if opts.no_deps_value() {
             return self.deps_with_generics(FnDeps::NoDeps, &input_sig.generics);
         }
@@ -236,7 +283,7 @@ impl GenericsAnalyzer {
 
         for (index, param) in generic_params.iter().enumerate() {
             if index != matching_index && !(matches!(param, &syn::GenericParam::Lifetime(_))) {
-                self.trait_generics.params.push(param.clone());
+                self.push_trait_param(param);
             }
         }
 
@@ -301,10 +348,10 @@ impl GenericsAnalyzer {
         for param in &generics.params {
             match param {
                 syn::GenericParam::Type(_) => {
-                    self.trait_generics.params.push(param.clone());
+                    self.push_trait_param(param);
                 }
                 syn::GenericParam::Const(_) => {
-                    self.trait_generics.params.push(param.clone());
+                    self.push_trait_param(param);
                 }
                 syn::GenericParam::Lifetime(_) => {}
             }
